@@ -312,10 +312,13 @@ def run_case(case, ctx):
                   "run:fit-count", "uninterrupted run does not fit each strategy once per dataset and fold", fits=len([e for e in rlog if e[1] == "fit"]), expected=len(exp_fits))
         if k is None:
             # idempotence and overwrite on the complete store
-            _, c2, log2, _ = _run(cfg, case["dseed"], ref_path, pot=pot2, save=save2)
+            r2, c2, log2, ds_2 = _run(cfg, case["dseed"], ref_path, pot=pot2, save=save2)
+            # every completed run merges its registry into the store's master file: still exactly one record per key when read back
+            _check_complete_store(ctx, cfg, ref_path, r2, ds_2, pot2, save2, "second, identical run on the complete store")
             ctx.check("idempotent", not c2 and len(log2) == 0 and {a: b for a, b in _snapshot(ref_path).items() if a != "results.pickle"} == {a: b for a, b in ref_snap.items() if a != "results.pickle"},
                       "rerun:identical-run-does-work-or-changes-store", "a further identical run performed fits/predicts or modified the store", calls=len(log2))
-            _, c3, log3, _ = _run(cfg, case["dseed"], ref_path, overwrite=True, pot=pot2, save=save2)
+            r3, c3, log3, ds_3 = _run(cfg, case["dseed"], ref_path, overwrite=True, pot=pot2, save=save2)
+            _check_complete_store(ctx, cfg, ref_path, r3, ds_3, pot2, save2, "third run, overwriting, on the complete store")
             ctx.check("overwrite.recomputes-all", not c3 and len(log3) == K, "overwrite:not-every-record-recomputed", "a run with overwriting enabled did not recompute every record",
                       calls=len(log3), expected=K)
             after = _snapshot(ref_path)
@@ -363,7 +366,11 @@ def run_case(case, ctx):
         same = same and all(_content(path, a) == _content(ref_path, a) for a in final if a.endswith(".csv") and a in ref_snap)
         ctx.check("resume.final==uninterrupted", same, "resume:final-store-differs-from-uninterrupted-run", "final store after crash + resume differs from an uninterrupted run",
                   only_resumed=sorted(set(final) - set(ref_snap))[:5], only_reference=sorted(set(ref_snap) - set(final))[:5])
-        _, c3, log3, _ = _run(cfg, case["dseed"], path, pot=pot2, save=save2)
+        r3, c3, log3, ds_3 = _run(cfg, case["dseed"], path, pot=pot2, save=save2)
+        _check_complete_store(ctx, cfg, path, r3, ds_3, pot2, save2, "identical run after crash at call %d and resume" % k)
+        r4, c4, _, ds_4 = _run(cfg, case["dseed"], path, pot=pot2, save=save2)
+        if not c4:
+            _check_complete_store(ctx, cfg, path, r4, ds_4, pot2, save2, "second identical run after the resume")
         ctx.check("idempotent", not c3 and len(log3) == 0, "rerun:identical-run-after-resume-does-work", "a further identical run after the resume performed fits/predicts", calls=len(log3))
         ctx.seen("overwrite.recomputes-all", 0)
         ctx.event(cfg=cfg, crash_point=k, total_calls=K, complete_after_crash=len(done), of=len(triples), resume_calls=len(log2), second_crash=case.get("k2"), switch=case.get("switch"))
